@@ -539,6 +539,12 @@ fn process_request_obj(request: &Request, dbs: &Arc<Databases>, client: &mut Cli
             request_str,
             opp_id,
         } => {
+            // only cluster members (authenticated links) replicate requests
+            if !client.is_admin_auth() {
+                return Response::Error {
+                    msg: "Not auth".to_string(),
+                };
+            }
             log::debug!("ack send_message_to_secoundary {} {}", opp_id, request_str);
             match client
                 .sender
